@@ -5,8 +5,10 @@
 // every in-domain argument" half of the property carries the weight; equality of the two
 // executions is checked as everywhere else.
 //
-// MC_PART: 1 basic_string_view searches;  2 inplace_string histories;  3 static_vector /
-// inplace_vector histories;  4 to_chars / from_chars;  5 chrono;  6 algorithms.
+// MC_PART: 1 basic_string_view searches;  2 inplace_string<7> histories (small layout);  3 static_vector /
+// inplace_vector histories;  4 to_chars / from_chars;  5 chrono;  6 algorithms;  7 inplace_string<40>
+// histories;  8 to_chars / from_chars for 32/64 bits and from_chars on short strings.  Table sizes are set by the compiler memory the constant evaluator needs (up to 250 KB per
+// history entry), not by run time.
 #include "mc.hpp"
 
 #include <etl/algorithm.hpp>
@@ -96,19 +98,28 @@ struct k_string_view {
     static constexpr bool valid(In const&) { return true; }
     static constexpr R call(In const& a)
     {
-        using sv          = etl::string_view;
-        auto const npos   = sv::npos;
-        sv const h{a.hay.s, std::size_t(a.hay.len)};
-        sv const n{a.needle.s, std::size_t(a.needle.len)};
-        auto const pos    = a.pos == int(NP) - 1 ? npos : std::size_t(a.pos);
-        auto const fwd    = pos == npos ? std::size_t(0) : pos; // forward searches take pos from the front
-        auto const c      = a.needle.len > 0 ? a.needle.s[0] : 'a';
-        auto const sub    = fwd <= h.size() ? h.substr(fwd, std::size_t(a.needle.len)) : sv{};
-        auto const cmp    = h.compare(n);
-        return R{ll(h.find(n, fwd)), ll(h.rfind(n, pos)), ll(h.find_first_of(n, fwd)), ll(h.find_last_of(n, pos)),
+        using sv        = etl::string_view;
+        auto const npos = sv::npos;
+        // the views live in exact-size allocations: in constant evaluation any read outside a view is
+        // rejected by the compiler (an empty string is the null view)
+        char* hb = a.hay.len > 0 ? new char[std::size_t(a.hay.len)] : nullptr;
+        char* nb = a.needle.len > 0 ? new char[std::size_t(a.needle.len)] : nullptr;
+        for (int i = 0; i < a.hay.len; ++i) { hb[i] = a.hay.s[i]; }
+        for (int i = 0; i < a.needle.len; ++i) { nb[i] = a.needle.s[i]; }
+        sv const h = hb != nullptr ? sv{hb, std::size_t(a.hay.len)} : sv{};
+        sv const n = nb != nullptr ? sv{nb, std::size_t(a.needle.len)} : sv{};
+        auto const pos = a.pos == int(NP) - 1 ? npos : std::size_t(a.pos);
+        auto const fwd = pos == npos ? std::size_t(0) : pos; // forward searches take pos from the front
+        auto const c   = a.needle.len > 0 ? a.needle.s[0] : 'a';
+        auto const sub = fwd <= h.size() ? h.substr(fwd, std::size_t(a.needle.len)) : sv{};
+        auto const cmp = h.compare(n);
+        R const out{ll(h.find(n, fwd)), ll(h.rfind(n, pos)), ll(h.find_first_of(n, fwd)), ll(h.find_last_of(n, pos)),
             ll(h.find_first_not_of(n, fwd)), ll(h.find_last_not_of(n, pos)), ll(h.find(c, fwd)), ll(h.rfind(c, pos)),
             ll((cmp > 0) - (cmp < 0)), ll(h.starts_with(n)), ll(h.ends_with(n)), ll(h.contains(n)), ll(sub.size()),
             ll(sub.empty() ? 0 : sub.front()), ll(h == n), ll(h < n)};
+        delete[] hb;
+        delete[] nb;
+        return out;
     }
     static std::string cls(In const& a)
     {
@@ -146,8 +157,8 @@ struct History {
     static bool nontrivial(In const& code) { return code != 0; }
 };
 
-#if MC_PART == 2
-constexpr int str_len = thorough_tables ? 5 : 4;
+#if MC_PART == 2 || MC_PART == 7
+constexpr int str_len = thorough_tables ? 4 : 3;
 template <std::size_t Cap>
 struct k_inplace_string : History<10, str_len> {
     using R = std::array<ll, 12>;
@@ -222,7 +233,7 @@ struct k_inplace_string : History<10, str_len> {
 #endif
 
 #if MC_PART == 3
-constexpr int vec_len = thorough_tables ? 5 : 4;
+constexpr int vec_len = 4;
 struct k_static_vector : History<9, vec_len> {
     using R = std::array<ll, 8>;
     static std::string subject() { return "static_vector<int,4> history"; }
@@ -334,7 +345,7 @@ struct k_inplace_vector : History<6, vec_len + 1> {
 };
 #endif
 
-#if MC_PART == 4
+#if MC_PART == 4 || MC_PART == 8
 // ---------------------------------------------------------------------------- charconv
 template <typename T>
 char const* iname()
@@ -386,7 +397,7 @@ struct ConvIn {
 template <typename T>
 struct k_charconv {
     using In = ConvIn<T>;
-    using R  = std::array<ll, 72>;
+    using R  = std::array<ll, 6>;
     static constexpr auto vals     = conv_values<T>();
     static constexpr std::size_t N = vals.size() * 6 * 3;
     static std::string subject() { return std::string("to_chars/from_chars(") + iname<T>() + ",base)"; }
@@ -412,16 +423,23 @@ struct k_charconv {
         int const size = a.room == 0 ? need : a.room == 1 ? need - 1 : 66;
         auto const res = etl::to_chars(buf, buf + size, a.value, a.base);
         out[0]         = ll(res.ec == etl::errc{});
+        out[1]         = ll(res.ptr - buf); // on value_too_large: == size (last) by the standard
         if (res.ec == etl::errc{}) {
-            out[1] = ll(res.ptr - buf);
-            for (int i = 0; i < 66; ++i) { out[std::size_t(4 + i)] = ll(buf[i]); }
+            ll h = 0; // the digits written
+            for (char const* p = buf; p != res.ptr; ++p) { h = mix(h, ll(*p)); }
+            out[4] = h;
+            ll untouched = 0; // nothing behind the result may be written
+            for (char const* p = res.ptr; p != buf + 68; ++p) { untouched += ll(*p == '#'); }
+            out[5] = untouched - ll(buf + 68 - res.ptr);
             T back{};
             auto const fr = etl::from_chars(buf, res.ptr, back, a.base);
             out[2]        = ll(fr.ec == etl::errc{}) + 2 * ll(fr.ptr - buf);
             out[3]        = ll(back == a.value);
         } else {
-            out[1] = ll(res.ptr - buf); // == size (last) by the standard
-            // buffer content after value_too_large is unspecified: not observed
+            // buffer content inside [first, last) after value_too_large is unspecified: only the part behind last is observed
+            ll untouched = 0;
+            for (char const* p = buf + (size < 0 ? 0 : size); p != buf + 68; ++p) { untouched += ll(*p == '#'); }
+            out[5] = untouched - ll(68 - (size < 0 ? 0 : size));
         }
         return out;
     }
@@ -488,7 +506,7 @@ struct k_from_chars {
 
 #if MC_PART == 5
 // ------------------------------------------------------------------------------ chrono
-constexpr int day_span = thorough_tables ? 150000 : 4000;
+constexpr int day_span = thorough_tables ? 9000 : 4000;
 struct k_civil {
     using In = int; // days since 1970-01-01
     using R  = std::array<ll, 8>;
@@ -514,7 +532,7 @@ struct k_civil {
 struct k_duration {
     using In = int; // milliseconds
     using R  = std::array<ll, 10>;
-    static constexpr int span      = thorough_tables ? 20000 : 3000;
+    static constexpr int span      = thorough_tables ? 7000 : 3000;
     static constexpr std::size_t N = std::size_t(2 * span + 1);
     static std::string subject() { return "duration_cast/floor/ceil/round/abs(milliseconds)"; }
     static constexpr In in(std::size_t i) { return int(i) - span; }
@@ -663,12 +681,14 @@ int main(int argc, char** argv)
     m.job("string_view", both, run_kernel<k_string_view>);
 #elif MC_PART == 2
     m.job("inplace_string-7", both, run_kernel<k_inplace_string<7>>);
+#elif MC_PART == 7
     m.job("inplace_string-40", both, run_kernel<k_inplace_string<40>>);
 #elif MC_PART == 3
     m.job("static_vector", both, run_kernel<k_static_vector>);
     m.job("inplace_vector", both, run_kernel<k_inplace_vector>);
 #elif MC_PART == 4
     m.job("charconv-8", both, run_all<k_charconv<i8>, k_charconv<u8>>);
+#elif MC_PART == 8
     m.job("charconv-32", both, run_all<k_charconv<i32>, k_charconv<u32>>);
     m.job("charconv-64", both, run_all<k_charconv<i64>, k_charconv<u64>>);
     m.job("from_chars-strings", both, run_all<k_from_chars<i8>, k_from_chars<u8>, k_from_chars<i32>, k_from_chars<u64>>);
